@@ -1,4 +1,4 @@
-import vf, trees
+import vf, trees, importlib
 
 def build(tier):
     quick = tier == "quick"
@@ -18,4 +18,10 @@ def build(tier):
                                      timeout=400 if quick else 2400))
     obs.append(trees.tree_ob("C18.b", "S1", "stdout", dict(ext_m=False, sep2=False, excl_root=False, out_i=0, recursive=False, auto_ex=True),
                              fixrev=True, timeout=400 if quick else 2400, note=" (prefix, extensions in titles)"))
+    # the output directory in effect is the one requested: a relative -o / configured directory resolved against the directory current when main() runs
+    C16 = importlib.import_module('C16')
+    for us in (False, True):
+        o = C16.ob('output', 'directory', 'outdir', 2, 300 if quick else 1800, dict(use_s=us, c_set=True))
+        o.name = o.name.replace('C16 outdir', 'C18.a requested output directory')
+        obs.append(o)
     return dict(obligations=obs, explanation="x", assumptions=[])
